@@ -1095,16 +1095,25 @@ func (x *vc) convert(fr *frame, st *state, in *ssa.Convert, pos string) Val {
 		}
 		return r
 	case fs == sStr && ts == sSlice:
+		ref := x.alloc(st, "str2slicearr") // before the value is created: its type invariant speaks of objects allocated so far
 		r := x.freshVal("str2slice", to, st)
 		if sl, ok := to.Underlying().(*types.Slice); ok {
 			if b, ok2 := sl.Elem().Underlying().(*types.Basic); ok2 && b.Kind() == types.Uint8 {
 				x.assume(st.guard, eq(app("sl_len", r.T), app("slen", v.T)))
+				// []byte("literal"): the bytes themselves (short literals only)
+				if v.Lit != nil && len(*v.Lit) <= 32 {
+					name, srt := x.elemArr(st, sl.Elem())
+					cur := x.heapArr(st, name, srt)
+					for i := 0; i < len(*v.Lit); i++ {
+						x.assume(st.guard, eq(app("select", app("select", cur, app("sl_arr", r.T)), smtInt(int64(i))), smtInt(int64((*v.Lit)[i]))))
+					}
+				}
 			} else {
 				x.assume(st.guard, and(app("<=", app("sl_len", r.T), app("slen", v.T)), implies(app(">", app("slen", v.T), "0"), app(">", app("sl_len", r.T), "0"))))
 			}
 		}
-		// fresh backing array
-		x.assume(st.guard, and(app(">", app("sl_arr", r.T), "0"), eq(app("sl_off", r.T), "0")))
+		// fresh backing array (a new object: distinct from everything allocated before)
+		x.assume("true", and(eq(app("sl_arr", r.T), ref), eq(app("sl_off", r.T), "0")))
 		return r
 	}
 	if v.T != "" && fs == ts {
